@@ -57,9 +57,11 @@ pub fn describe_client_msg(m: &ClientMessage<Req>) -> Value {
 }
 
 pub fn describe_response(r: &Response<Resp>) -> Value {
+    // aliased ids (id0 + 2^32, see the `Peer` step) are written 7000 + id0 in the trace
+    let id = if r.request_id >= (1u64 << 32) { 7000 + (r.request_id & 0xffff_ffff) } else { r.request_id };
     match &r.message {
-        Ok(b) => json!({"id": r.request_id, "ok": true, "body": b}),
-        Err(e) => json!({"id": r.request_id, "ok": false, "body": e.detail}),
+        Ok(b) => json!({"id": id, "ok": true, "body": b}),
+        Err(e) => json!({"id": id, "ok": false, "body": e.detail}),
     }
 }
 
@@ -475,7 +477,11 @@ impl St {
                 };
             }
             "Peer" | "PeerErr" => {
-                let id = step["id"].as_u64().unwrap();
+                let id0 = step["id"].as_u64().unwrap();
+                // `alias`: a response whose id agrees with id0 in its low 32 bits but is another id (id0 + 2^32): nobody asked
+                // for it.  The trace calls it 7000 + id0 (the observer's integers are 32 bits wide).
+                let alias = step.get("alias").and_then(|v| v.as_bool()).unwrap_or(false);
+                let id = if alias { 7000 + id0 } else { id0 };
                 self.next_n += 1;
                 let n = self.next_n;
                 let msg = if act == "Peer" {
@@ -488,6 +494,7 @@ impl St {
                     message: msg,
                 };
                 emit("PeerPush", json!({"item": describe_response(&r)}));
+                let r = if alias { Response { request_id: id0 + (1u64 << 32), message: r.message } } else { r };
                 self.tr.borrow_mut().push_in(r);
             }
             "PeerEof" => {
@@ -780,6 +787,7 @@ impl Gen {
             let id = rng.gen_range(0..self.next_c + 1);
             ch.push((12, json!({"a":"Peer","id":id})));
             ch.push((2, json!({"a":"PeerErr","id":id})));
+            ch.push((2, json!({"a":"Peer","id":id,"alias":true})));
         }
         if !in_win {
             for c in &live {
